@@ -29,6 +29,19 @@ EXPRS = [
     ("ceil", lambda v: np.ceil(v), lambda T: T - 0.25 if float(T).is_integer() else None, True),
     ("round", lambda v: np.round(v), lambda T: T + 0.2 if float(T).is_integer() else None, True),
     ("nested", lambda v: (2 * v + 1) / 2 - 0.5, lambda T: T, True),
+    # the remaining operators / functions of a parametrized object (one inverse each, so that every position can reach its value)
+    ("exp", lambda v: np.exp(v), lambda T: math.log(T) if T > 0 else None, False),
+    ("log", lambda v: np.log(v), lambda T: math.exp(T) if abs(T) < 50 else None, False),
+    ("log2", lambda v: np.log2(v), lambda T: 2.0 ** T if abs(T) < 50 else None, False),
+    ("cos", lambda v: np.cos(v), lambda T: math.acos(T) if abs(T) <= 1 else None, False),
+    ("tan", lambda v: np.tan(v), lambda T: math.atan(T), False),
+    ("tanh", lambda v: np.tanh(v), lambda T: math.atanh(T) if abs(T) < 1 else None, False),
+    ("2**v", lambda v: 2 ** v, lambda T: math.log2(T) if T > 0 else None, False),
+    ("v//1", lambda v: v // 1, lambda T: T + 0.25 if float(T).is_integer() else None, True),
+    ("9//v", lambda v: 9 // v, lambda T: 9 / (T + 0.5) if float(T).is_integer() and T >= 0 else None, True),
+    ("v%m", lambda v: v % 1000, lambda T: T + 3000 if 0 <= T < 1000 else None, True),
+    ("m%v", lambda v: 1000003 % v, lambda T: float(1000003 - T) if float(T).is_integer() and 0 <= T < 400000 else None, True),
+    ("round1", lambda v: np.round(v, 1), lambda T: T + 0.04 if float(T * 10).is_integer() else None, False),
     # an exact tie: numpy / Python round half to even, so x.5 with x even rounds DOWN to x
     ("round-tie", lambda v: np.round(v), lambda T: T + 0.5 if float(T).is_integer() and int(T) % 2 == 0 else None, True),
     # array-only kinds (whole-array arguments): an array LITERAL as the other operand of the expression
@@ -88,7 +101,7 @@ class Vals:
         if v is None:
             self.skip = True
             return T
-        use_int_var = integer and int_safe and kind not in ("floor", "ceil", "round", "round-tie") and float(v).is_integer()
+        use_int_var = integer and int_safe and kind not in ("floor", "ceil", "round", "round-tie", "v//1", "9//v", "v%m", "m%v") and float(v).is_integer()
         if self.mode == "template":
             if name not in self.vars:
                 self.vars[name] = self.seq.declare_variable(name, dtype=int if use_int_var else float)
@@ -206,6 +219,19 @@ def sk_waveforms(seq, V, w):
     seq.add(Pulse.ConstantDetuning(comp, 0.0, V(11, 2.0)), "g")
 
 
+def sk_maxval(seq, V, w):
+    """Waveforms defined by their maximum value (classmethod constructors: the duration follows from the arguments)."""
+    from pulser import Pulse
+    from pulser.waveforms import BlackmanWaveform, KaiserWaveform
+
+    seq.declare_channel("g", "rydberg_global")
+    bm = BlackmanWaveform.from_max_val(V(0, 2.0), V(1, 1.2))
+    seq.add(Pulse.ConstantDetuning(bm, V(2, 0.5), 0.0), "g")
+    km = KaiserWaveform.from_max_val(V(3, 2.5), V(4, 0.9), V(5, 6.0))
+    seq.add(Pulse.ConstantDetuning(km, 0.0, V(6, 0.3)), "g", "no-delay")
+    seq.add(Pulse.ConstantAmplitude(1.0, BlackmanWaveform.from_max_val(max_val=-V(0, 2.0), area=-0.6), 0.0), "g")  # negative, as a detuning
+
+
 def sk_interp(seq, V, w):
     from pulser import Pulse
     from pulser.waveforms import InterpolatedWaveform
@@ -261,7 +287,25 @@ def sk_xy(seq, V, w):
     seq.measure("XY")
 
 
-SKELETONS = {"basic": sk_basic, "waveforms": sk_waveforms, "interp": sk_interp, "eom": sk_eom, "dmm": sk_dmm,
+def sk_literals(seq, V, w):
+    """Literal boundary values in calls that FOLLOW the first variable (the calls are only stored then): zero-length delays, an
+    explicit default protocol, a retarget to the current target, an empty phase shift."""
+    from pulser import Pulse
+
+    seq.declare_channel("g", "rydberg_global")
+    seq.declare_channel("l", "raman_local", initial_target="q0")
+    seq.add(Pulse.ConstantPulse(V(0, 52, True), V(1, 1.5), 0.0, 0.0), "g")
+    seq.delay(0, "g", at_rest=True)
+    seq.delay(0, "l")
+    seq.phase_shift(0.0, "q0", basis="digital")
+    seq.target("q0", "l")
+    seq.add(Pulse.ConstantPulse(64, V(2, 2.0), 0.0, 0.0), "l", "min-delay")
+    seq.delay(V(3, 16, True), "g")
+    seq.align("g", "l", at_rest=False)
+    seq.add(Pulse.ConstantPulse(16, 1.0, 0.0, 0.0, post_phase_shift=0.0), "g", protocol="no-delay")
+
+
+SKELETONS = {"literals": sk_literals, "maxval": sk_maxval, "basic": sk_basic, "waveforms": sk_waveforms, "interp": sk_interp, "eom": sk_eom, "dmm": sk_dmm,
              "index": sk_index, "xy": sk_xy}
 WORLD = corner("real", name="c08", qubits=3, clock=4, min_dur=16)
 
@@ -303,7 +347,7 @@ def applicable(kind, base, integer, pos):
                 return False
         except Exception:
             return False
-    if integer and kind in ("2*v", "v/2", "v**2", "sqrt", "sin"):
+    if integer and kind in ("2*v", "v/2", "v**2", "sqrt", "sin", "exp", "log", "log2", "cos", "tan", "tanh", "2**v", "round1"):
         return False  # would not yield whole numbers for durations / indices
     return True
 
